@@ -626,7 +626,7 @@ impl Prop for C06 {
             v.push(format!("{}:open_error", f));
         }
         v.push("auto_detection_driven".into());
-        for a in ["none", "zip:part_dropped", "zip:part_truncated", "zip:archive_truncated", "xml:attr", "xml:text", "xml:start_tag_deleted", "xml:end_tag_deleted", "biff:payload_truncated", "biff:field16", "biff:length_field", "biff:continue_spliced", "biff:sst_tiny_continue", "biff:formula_cce", "cfb:header", "cfb:difat_cycle", "cfb:fat_entry", "cfb:dir_entry", "cfb:truncated", "xlsb:payload_truncated", "xlsb:length_field", "xlsb:field32", "ovba:dir_container", "ovba:module_container", "ovba:dir_record_len", "ovba:module_offset", "vba:cfb"] {
+        for a in ["none", "zip:part_dropped", "zip:part_truncated", "zip:archive_truncated", "xml:attr", "xml:text", "xml:start_tag_deleted", "xml:end_tag_deleted", "biff:payload_truncated", "biff:field16", "biff:length_field", "biff:continue_spliced", "biff:sst_tiny_continue", "biff:lbl_rgce_truncated", "biff:formula_cce", "cfb:header", "cfb:difat_cycle", "cfb:fat_entry", "cfb:dir_entry", "cfb:truncated", "xlsb:payload_truncated", "xlsb:length_field", "xlsb:field32", "ovba:dir_container", "ovba:module_container", "ovba:dir_record_len", "ovba:module_offset", "vba:cfb"] {
             v.push(format!("atom:{}", a));
         }
         v
